@@ -81,7 +81,13 @@ struct Converse {
     ext: Extensions,
     variants: &'static [&'static str],
     check: fn(&ScalableRecipe, &str) -> Result<(), String>,
+    /// extension bits that must be ON in the subsets used (besides `ext` being off); 0 = none
+    need: u32,
+    /// text placed before the host (front matter has to be at the very top)
+    prefix: &'static str,
 }
+
+const BIT_INTERMEDIATE_ONLY: u32 = 1 << 11;
 
 fn ingredient<'a>(r: &'a ScalableRecipe, name: &str) -> Result<&'a cooklang::Ingredient<ScalableValue>, String> {
     r.ingredients.iter().find(|i| i.name == name).ok_or_else(|| format!("no ingredient named {name:?}; have {:?}", r.ingredients.iter().map(|i| &i.name).collect::<Vec<_>>()))
@@ -120,6 +126,8 @@ const CONVERSE: &[Converse] = &[
                 Ok(())
             }
         },
+        need: 0,
+        prefix: "",
     },
     Converse {
         name: "range",
@@ -130,6 +138,8 @@ const CONVERSE: &[Converse] = &[
             let want = v.trim_start_matches("@eggs{").split(['%', '}']).next().unwrap();
             text_value(i.quantity.as_ref(), want)
         },
+        need: 0,
+        prefix: "",
     },
     Converse {
         name: "advanced_units",
@@ -144,6 +154,8 @@ const CONVERSE: &[Converse] = &[
             }
             Ok(())
         },
+        need: 0,
+        prefix: "",
     },
     Converse {
         name: "modes",
@@ -163,6 +175,8 @@ const CONVERSE: &[Converse] = &[
             }
             Ok(())
         },
+        need: 0,
+        prefix: "",
     },
     Converse {
         name: "inline_quantities",
@@ -181,6 +195,8 @@ const CONVERSE: &[Converse] = &[
             }
             Ok(())
         },
+        need: 0,
+        prefix: "",
     },
     Converse {
         name: "timer_requires_time",
@@ -194,6 +210,8 @@ const CONVERSE: &[Converse] = &[
             }
             Ok(())
         },
+        need: 0,
+        prefix: "",
     },
     Converse {
         name: "modifiers",
@@ -214,6 +232,8 @@ const CONVERSE: &[Converse] = &[
             }
             Ok(())
         },
+        need: 0,
+        prefix: "",
     },
     Converse {
         name: "intermediate",
@@ -227,6 +247,63 @@ const CONVERSE: &[Converse] = &[
             }
             Ok(())
         },
+        need: 0,
+        prefix: "",
+    },
+    // INTERMEDIATE off but MODIFIERS on: `&` is the reference modifier and `(1)` stays in the name
+    Converse {
+        name: "intermediate_with_modifiers",
+        ext: Extensions::from_bits_retain(BIT_INTERMEDIATE_ONLY),
+        variants: &["@(1)dough{} and @&(1)dough{}", "@(=1)dough{2%g} then @&(=1)dough{1%g}", "@(2)dough{} and the @&(2)dough{}"],
+        check: |r, v| {
+            let name = v[1..].split('{').next().unwrap();
+            let idx: Vec<usize> = r.ingredients.iter().enumerate().filter(|(_, i)| i.name == name).map(|(k, _)| k).collect();
+            if idx.len() != 2 {
+                return Err(format!("expected two ingredients named {name:?}, have {:?}", r.ingredients.iter().map(|i| &i.name).collect::<Vec<_>>()));
+            }
+            let second = &r.ingredients[idx[1]];
+            match second.relation.references_to() {
+                Some((t, cooklang::model::IngredientReferenceTarget::Ingredient)) if t == idx[0] => Ok(()),
+                other => Err(format!("second {name:?} should be a plain reference to the first, relation is {other:?}")),
+            }
+        },
+        need: Extensions::COMPONENT_MODIFIERS.bits(),
+        prefix: "",
+    },
+    // MODES off and a front matter present: `>>` lines are ordinary step text, the switch has no effect
+    Converse {
+        name: "modes_below_front_matter",
+        ext: Extensions::MODES,
+        variants: &[">> [mode]: text
+
+Mix @thing{} well", ">> [mode]: components
+
+Mix @thing{} well", ">> [duplicate]: ref
+
+Mix @thing{} and @thing{}", ">> [mode]: steps
+
+Mix @thing{} well"],
+        check: |r, v| {
+            let line = v.split('\n').next().unwrap();
+            if r.metadata.map.keys().any(|k| k.as_str().is_some_and(|k| k.starts_with('['))) {
+                return Err("bracketed key entered the metadata although a front matter is present".into());
+            }
+            let found = r.sections.iter().flat_map(|s| &s.content).any(|c| match c {
+                cooklang::Content::Step(st) => st.items.iter().any(|i| matches!(i, cooklang::Item::Text { value } if value.contains(line))),
+                _ => false,
+            });
+            if !found {
+                return Err(format!("{line:?} is not kept as step text"));
+            }
+            let things: Vec<_> = r.ingredients.iter().filter(|i| i.name == "thing").collect();
+            let want = v.matches("@thing").count();
+            if things.len() != want || things.iter().any(|i| !i.relation.is_definition() || i.relation.is_defined_in_step() != Some(true)) {
+                return Err(format!("the switch took effect: {} ingredient(s) `thing`, relations {:?}", things.len(), things.iter().map(|i| &i.relation).collect::<Vec<_>>()));
+            }
+            Ok(())
+        },
+        need: 0,
+        prefix: "---\ntitle: x\n---\n",
     },
 ];
 
@@ -255,9 +332,9 @@ pub fn check_converse(ctx: &mut Ctx, ps: &mut Parsers, subsets: &[u32]) {
                 if !ctx.mine(k) {
                     continue;
                 }
-                let text = format!("{pre}{v}{post}");
-                // subsets in which none of the construct's extension bits is on
-                let lacking: Vec<u32> = subsets.iter().copied().filter(|e| !Extensions::from_bits_retain(*e).intersects(c.ext)).collect();
+                let text = format!("{}{pre}{v}{post}", c.prefix);
+                // subsets in which none of the construct's extension bits is on (and the needed ones are)
+                let lacking: Vec<u32> = subsets.iter().copied().filter(|e| !Extensions::from_bits_retain(*e).intersects(c.ext) && e & c.need == c.need).collect();
                 let mut first: Option<J> = None;
                 for e in &lacking {
                     let case = Case::new(&format!("converse:{}", c.name), text.as_str(), *e, "bundled");
@@ -314,6 +391,9 @@ pub fn run(ctx: &mut Ctx) {
             continue;
         };
         ctx.count("core_recipes");
+        for c in &sp.constructs {
+            ctx.count(&format!("construct:{c}"));
+        }
         check_core(ctx, &mut ps, &subsets, &sp.text, Some(exp));
     }
     // the canonical spec sources that are core-only by construction are also compared across subsets
